@@ -351,8 +351,8 @@ def run_suite_audit(shard, acc):
 
 
 def plan(tier, seed):
-    depth = 4 if tier == "quick" else 6
-    nrand = 16000 if tier == "quick" else 600000
+    depth = 5 if tier == "quick" else 6
+    nrand = 48000 if tier == "quick" else 600000
     shards = [dict(kind="fixed")]
     if tier == "thorough":
         shards.append(dict(kind="suite_audit", files=["test_process.py", "test_posix.py"], timeout=3000))
